@@ -398,3 +398,87 @@ def rule_json_entry(ctx, config='dev'):
                     r.violation('%s:%s' % (b.path, why), site, b.path, 'JSON entry cone contains a panic site / dropped error: ' + why)
     r.check_floor()
     return r
+
+
+# ------------------------------------------------------------------------------------------------------------------------------
+# LOOKUP-UNWRAP: a table lookup keyed by what a child's map says is not unwrapped blindly
+
+_LOOKUP_PASS = ('cloned', 'copied', 'as_ref', 'as_deref', 'map', 'deref', 'borrow', 'borrow_mut', 'clone', 'as_mut')
+
+
+def rule_lookup_unwrap(ctx, config='dev'):
+    """`table.get(key).unwrap()` in a composite's callbacks: the key comes from a child's (possibly wild) map"""
+    from .streams import composites
+    from ..ir import walk, resolve_closure_params
+    f = ctx.facts(config)
+    r = RuleResult('LOOKUP-UNWRAP', 'inside the callbacks of a composite streamer, the result of a table lookup (`get` on a LinearMap / HashMap / '
+                                    'slice) is unwrapped only where the entry is known to exist: the Option was given a value on the miss '
+                                    'path (get-or-insert), or the unwrap is dominated by the test of the "announced, not yet translated" '
+                                    'sentinel of the companion table (PREFILL stores it exactly for announced keys); a name or source index '
+                                    'that a supplied map uses beyond its tables must not panic')
+    comps, ol = composites(f)
+    seen = set()
+    for root, members, inner in comps:
+        for m in members:
+            if m.key in seen:
+                continue
+            seen.add(m.key)
+            for pt, t in m.calls():
+                c = t.get('callee')
+                if not (c and c['name'] in ('unwrap', 'expect') and 'option::Option' in c['path'] and t['args']):
+                    continue
+                e = resolve_closure_params(f, m.expr_of_operand(t['args'][0]))
+                # peel content-free adaptors; a choice (phi) with a `Some(..)` alternative is the get-or-insert idiom
+                x = e
+                filled = False
+                while True:
+                    if x and x[0] in ('ref', 'deref', 'cast'):
+                        x = x[1]
+                    elif x and x[0] == 'call' and x[1].rsplit('::', 1)[-1] in _LOOKUP_PASS and x[2]:
+                        x = x[2][0]
+                    elif x and x[0] == 'phi':
+                        alts = list(x[1])
+                        if any(a and a[0] == 'agg' and (a[3] == 'Some' or (a[2] or '').endswith('Option')) for a in alts):
+                            filled = True
+                        gets = [a for a in alts if any(isinstance(y, tuple) and y and y[0] == 'call' and y[1].endswith('::get') for y in walk(a))]
+                        if len(gets) == 1:
+                            x = gets[0]
+                        else:
+                            break
+                    else:
+                        break
+                if not (x and x[0] == 'call' and x[1].endswith('::get')):
+                    continue                                    # not a table lookup (chunk.unwrap() etc. are UNWRAP-TEXT's)
+                table = x[1].rsplit('::', 2)[0].rsplit('::', 1)[-1] if '::' in x[1] else x[1]
+                inst = '%s: unwrap of a `%s` lookup' % (m.path, x[1].split('<')[0].rsplit('::', 2)[-2] if '::' in x[1] else x[1])
+                if filled:
+                    r.site(inst + ': the Option is given a value on the miss path (get-or-insert)', t['s'], 'ok')
+                    continue
+                # dominated by the true edge of `== -2` (the sentinel PREFILL stores for announced keys)?
+                ok = False
+                dom = m.dom()
+                for d in dom.get(pt[0], set()):
+                    tt = m.term(d)
+                    if tt['k'] != 'switch' or tt['d']['k'] not in ('copy', 'move'):
+                        continue
+                    ce = m.expr_of_operand(tt['d'])
+                    if not (ce and ce[0] == 'bin' and ce[1] in ('Eq', 'Ne')):
+                        continue
+                    sent = any(y and y[0] == 'const' and isinstance(y[1], int) and y[1] < -1 for y in (ce[2], ce[3]))
+                    if not sent:
+                        continue
+                    zero_t = [y[1] for y in tt['targets'] if y[0] == 0]
+                    other = [y for y in [tt['otherwise']] + [z[1] for z in tt['targets'] if z[0] != 0] if y not in zero_t]
+                    good = other if ce[1] == 'Eq' else zero_t
+                    if any((g == pt[0] or g in dom.get(pt[0], set())) and len(m.preds(g)) == 1 for g in good):
+                        ok = True
+                r.site(inst + (': under the test of the announced-key sentinel' if ok else ': nothing establishes that the key is in the table'),
+                       t['s'], 'ok' if ok else 'violation')
+                if not ok:
+                    r.violation('%s:%s' % (root.path, x[1].split('<')[0].rsplit('::', 1)[-1] + ':' + c['name']), t['s'], m.path,
+                                'the result of a table lookup is unwrapped although nothing establishes that the key was ever stored: the '
+                                'key derives from an index a supplied source map uses (a name / source index beyond its tables is in the '
+                                'documented input domain), so map() / stream_chunks panic on `None`')
+    r.floor = 6
+    r.check_floor()
+    return r
